@@ -152,8 +152,8 @@ def allFrom (p : Int → Bool) : Nat → Int → Bool
   | n + 1, c => p c && allFrom p n (c + 1)
 
 /-- `D01`: the (state, operation) pairs on which the recorded diff list is proved to undo and
-    redo the operation exactly.  Outside it: `set_columns_width` / `set_rows_height` over a HIDDEN
-    column/row (`get_column_width` answers 0 for it, and undo then stores 0 — finding F01c), states
+    redo the operation exactly.  Outside it: `delete_sheet` of a sheet that has links (the undo does
+    not restore them — finding F01d), states
     whose stored timezone/locale/frozen counts would themselves be rejected by the setters, and —
     for the three sheet-list operations, books whose names are not valid and unique. -/
 def dom (b : Book) : Op → Bool
@@ -186,19 +186,20 @@ def dom (b : Book) : Op → Bool
     !b.sheets.isEmpty && isValidSheetName (mNewSheet env b).2.1 &&
       !nameTaken env b (mNewSheet env b).2.1
   | .deleteSheet i =>
-    -- the deleted sheet's name is valid and no other sheet has it (true of well-formed books)
+    -- the deleted sheet's name is valid and no other sheet has it (true of well-formed books),
+    -- and the sheet has no links (the undo does not restore them: finding F01d)
     match b.sheets[i]? with
     | some sh => isValidSheetName sh.name &&
-        !nameTaken env { b with sheets := b.sheets.eraseIdx i } sh.name
+        !nameTaken env { b with sheets := b.sheets.eraseIdx i } sh.name && sh.links.isEmpty
     | none => true
   | .setColumnsWidth s c1 c2 _ =>
     match b.sheets[s]? with
-    | some sh => allFrom (fun c => !(sh.colAt c).hidden && decide (0 ≤ (sh.colAt c).width))
+    | some sh => allFrom (fun c => decide (0 ≤ (sh.colAt c).width))
         (rangeCount c1 c2) c1
     | none => true
   | .setRowsHeight s r1 r2 _ =>
     match b.sheets[s]? with
-    | some sh => allFrom (fun r => !(sh.rowAt r).hidden && decide (0 ≤ (sh.rowAt r).height))
+    | some sh => allFrom (fun r => decide (0 ≤ (sh.rowAt r).height))
         (rangeCount r1 r2) r1
     | none => true
   | .setColumnsHidden _ _ _ _ => true
@@ -623,16 +624,16 @@ theorem linked1_setRowHidden {b : Book} {sheet : Nat} {s : Sheet} {r : Int} {h :
 theorem colsWidthLoop_chain (sheet : Nat) (w : Int) (hw : ¬ w < 0) (b0 : Book) :
     ∀ (n : Nat) (c : Int) (b : Book) (acc : List Diff) (s : Sheet),
       getSheet b sheet = .ok s → 1 ≤ c → c + n - 1 ≤ LAST_COLUMN →
-      allFrom (fun x => !(s.colAt x).hidden && decide (0 ≤ (s.colAt x).width)) n c = true →
+      allFrom (fun x => decide (0 ≤ (s.colAt x).width)) n c = true →
       Chain env b0 acc b →
       Chain env b0 (colsWidthLoop sheet w n c b acc).ds (colsWidthLoop sheet w n c b acc).b
   | 0, _, _, _, _, _, _, _, _, hc => hc
   | n + 1, c, b, acc, s, hs, h1, h2, hall, hc => by
     have hv : validCol c = true := by simp [validCol]; omega
-    simp only [allFrom, Bool.and_eq_true, Bool.not_eq_true', decide_eq_true_eq] at hall
-    obtain ⟨⟨hnh, hpos⟩, hrest⟩ := hall
+    simp only [allFrom, Bool.and_eq_true, decide_eq_true_eq] at hall
+    obtain ⟨hpos, hrest⟩ := hall
     have hg : mGetColumnWidth b sheet c = .ok (s.colAt c).width := by
-      simp [mGetColumnWidth, hs, hv, hnh]
+      simp [mGetColumnWidth, hs, hv]
     simp only [colsWidthLoop, hg, mSetColumnWidth, hs, hv, hw, Bool.not_true,
       Bool.false_eq_true, if_false]
     refine colsWidthLoop_chain sheet w hw b0 n (c + 1) _ _ _ (getSheet_setSheet hs) (by omega)
@@ -646,16 +647,16 @@ theorem colsWidthLoop_chain (sheet : Nat) (w : Int) (hw : ¬ w < 0) (b0 : Book) 
 theorem rowsHeightLoop_chain (sheet : Nat) (w : Int) (hw : ¬ w < 0) (b0 : Book) :
     ∀ (n : Nat) (c : Int) (b : Book) (acc : List Diff) (s : Sheet),
       getSheet b sheet = .ok s → 1 ≤ c → c + n - 1 ≤ LAST_ROW →
-      allFrom (fun x => !(s.rowAt x).hidden && decide (0 ≤ (s.rowAt x).height)) n c = true →
+      allFrom (fun x => decide (0 ≤ (s.rowAt x).height)) n c = true →
       Chain env b0 acc b →
       Chain env b0 (rowsHeightLoop sheet w n c b acc).ds (rowsHeightLoop sheet w n c b acc).b
   | 0, _, _, _, _, _, _, _, _, hc => hc
   | n + 1, c, b, acc, s, hs, h1, h2, hall, hc => by
     have hv : validRow c = true := by simp [validRow]; omega
-    simp only [allFrom, Bool.and_eq_true, Bool.not_eq_true', decide_eq_true_eq] at hall
-    obtain ⟨⟨hnh, hpos⟩, hrest⟩ := hall
+    simp only [allFrom, Bool.and_eq_true, decide_eq_true_eq] at hall
+    obtain ⟨hpos, hrest⟩ := hall
     have hg : mGetRowHeight b sheet c = .ok (s.rowAt c).height := by
-      simp [mGetRowHeight, hs, hv, hnh]
+      simp [mGetRowHeight, hs, hv]
     simp only [rowsHeightLoop, hg, mSetRowHeight, hs, hv, hw, Bool.not_true,
       Bool.false_eq_true, if_false]
     refine rowsHeightLoop_chain sheet w hw b0 n (c + 1) _ _ _ (getSheet_setSheet hs) (by omega)
@@ -853,8 +854,8 @@ theorem op_chain (b : Book) (o : Op) (ds : List Diff) (hd : dom env b o = true)
     | ok sh =>
       have hsome := getSheet_ok hs
       have hi : i < b.sheets.length := (List.getElem?_eq_some_iff.mp hsome).1
-      simp only [dom, hsome, Bool.and_eq_true, Bool.not_eq_true'] at hd
-      obtain ⟨hvalid, hfree⟩ := hd
+      simp only [dom, hsome, Bool.and_eq_true, Bool.not_eq_true', List.isEmpty_iff] at hd
+      obtain ⟨⟨hvalid, hfree⟩, hnolinks⟩ := hd
       simp only [hs, mDeleteSheet] at herr hp ⊢
       by_cases h1 : b.sheets.length = 1
       · simp [h1, fail] at herr
@@ -872,7 +873,7 @@ theorem op_chain (b : Book) (o : Op) (ds : List Diff) (hd : dom env b o = true)
           have hsh : ({ emptySheet sh.name sh.id with
               rowAt := sh.rowAt, colAt := sh.colAt, grid := sh.grid, frozenCols := sh.frozenCols,
               frozenRows := sh.frozenRows, state := sh.state, color := sh.color } : Sheet) = sh := by
-            cases sh; rfl
+            cases sh; simp only [emptySheet] at hnolinks ⊢; simp_all
           rw [hsh, insertIdx_eraseIdx _ _ _ hsome]
         · simp only [fwd1, mDeleteSheet, h1, h2, if_false]
   | setColumnsWidth s c1 c2 w =>
